@@ -15,7 +15,7 @@ ASSUMPTIONS = ["storage methods are driven directly with mementos built from rea
                "no I/O faults here (those are C08); restart = new backend object over the same directories"]
 COMPONENTS = {"real": ["twosigma.memento storage backends, codecs, metadata source, memory cache", "tmpfs"],
               "stub": ["uuid4 (seeded)", "clock (virtual)", "mementos are built by the harness, not by the runner"]}
-REACH = ["restarts", "rememoize_live_key", "override_writes", "forgot_live", "forget_everything", "metadata_writes",
+REACH = ["reads_with_held_memento", "restarts", "rememoize_live_key", "override_writes", "forgot_live", "forget_everything", "metadata_writes",
          "reads_of_live"]
 
 
